@@ -47,6 +47,13 @@ def check_mesh(rep, dev, spec, mi):
     want_area = (dev.film.area - sum(h.area for h in dev.holes)) / xi ** 2
     if abs(float(np.sum(tri_area)) - want_area) > 1e-9 * want_area:
         rep.violation(f"triangles do not tile film minus holes: total area {float(np.sum(tri_area))!r} vs {want_area!r}", case)
+    # the centre of mass of the mesh is the centroid of the region it tiles (film minus holes)
+    from shapely.geometry import Polygon as _SP
+    region = _SP(dev.film.points, holes=[h.points for h in dev.holes])
+    com = np.asarray(m.center_of_mass, dtype=float) * xi
+    if np.max(np.abs(com - np.array([region.centroid.x, region.centroid.y]))) > 1e-7 * max(dev.film.extents) and spec.get("smooth", 0) == 0:
+        rep.violation("Mesh.center_of_mass is not the centroid of the film minus its holes",
+                      {**case, "center_of_mass": com.tolist(), "centroid": [region.centroid.x, region.centroid.y]})
     # every triangle centroid inside the film and outside the holes
     cen = P.mean(axis=1) * xi
     if not np.all(dev.contains_points(cen)):
